@@ -48,12 +48,23 @@ let run (path : String.t) =
            (* the client was configured with the other CA: it may only talk to the server certified by that CA *)
            if registered && s = "T" then (prop := false; note (Printf.sprintf "a client configured with the other CA talked to the server certified by the trusted CA (via %s)" via));
            if (not registered) && s = "O" then (prop := false; note (Printf.sprintf "a client configured with the other CA refused the server certified by that CA (via %s): %s" via res))
+         | ["pairb"; c; via; "->"; res] ->
+           incr pairs;
+           Hashtbl.replace seen ("B", c, via) ();
+           Hashtbl.replace distinct ("B" ^ c ^ via) ();
+           let registered = (res = "registered") in
+           let key = "B-" ^ c ^ "-" ^ (if registered then "registered" else "refused") in
+           Hashtbl.replace outcomes key (1 + try Hashtbl.find outcomes key with Not_found -> 0);
+           let cid = (if c = "trusted" then IdTrusted else IdOtherCa) in
+           if matrix_bundle cid <> registered then (corr := false; note (Printf.sprintf "bundle server / client %s via %s: implementation %s, model %s" c via res (if matrix_bundle cid then "admits" else "refuses")));
+           if registered && c <> "trusted" then (prop := false; note (Printf.sprintf "a client certified by the other CA registered on a server started with the trusted CA (its --cert file was a bundle containing the other CA) via %s" via));
+           if (not registered) && c = "trusted" then (prop := false; note (Printf.sprintf "the trusted client was refused by the bundle server via %s: %s" via res))
          | "harness_error" :: _ -> prop := false; note lines.(!i)
          | ["end"] -> ended := true
          | _ -> ());
         incr i
       done;
-      if not !ended || Hashtbl.length seen < 22 then (prop := false; note "the identity matrix was not completed");
+      if not !ended || Hashtbl.length seen < 26 then (prop := false; note "the identity matrix was not completed");
       if not !corr then incr corr_fail;
       if not !prop then incr prop_fail;
       if not (!corr && !prop) then
